@@ -31,7 +31,9 @@ TECHNIQUE = (
     "of real EOFBootstrapper fits, each member compared with a numpy eigh reference on the replayed resample, plus a run-to-run relation"
 )
 RULE = (
-    "full product (per tier, see cases()) of container {DataArray, two sample dims, MultiIndex sample dim, Dataset, list} x "
+    "full product (per tier, see cases()) of fitted model class {EOF, ComplexEOF on complex data, HilbertEOF} x provenance of the judged fit "
+    "{fresh bootstrapper, second fit of one bootstrapper after the same model, ... after another model} x "
+    "container {DataArray, two sample dims, MultiIndex sample dim, Dataset, list} x "
     "(sample_name, feature_name) in {defaults, (s,f), (s,default), (default,f)} x (center, standardize, use_coslat, weights) x "
     "shape x spectrum x n_modes x n_bootstraps x bootstrap seed; a case is non-trivial when both bootstrap runs returned and the "
     "clauses (a) variances/total variance, (b) orthonormal components in the reference subspaces, (c) scores = projection, "
@@ -47,8 +49,12 @@ ASSUMPTIONS = [
     "sign alignment is accepted under any of: Pearson correlation of scores, uncentred cosine of scores, cosine of components (the statement does not choose); "
     "it is decided only where all of them exceed 1e-6 in magnitude",
     "bootstrap seeds {0,1,7} and n_bootstraps {1,2,3,50} stand for 'all integer seeds' and 1..50",
+    "complex-valued models: Hermitian orthonormality, eigh of the Hermitian covariance of the resample, scores = (X - resample mean) . components "
+    "(the convention of the model itself, checked by C01), orientation = real part of the Hermitian inner product with the model's mode is non-negative; "
+    "HilbertEOF is fitted with padding='none' and its samples are scipy.signal.hilbert of the preprocessed data, re-centred",
+    "provenance 'refit': every clause is applied to the SECOND fit of one bootstrapper object; clause (e) relates it to a fresh object with the same seed",
 ]
-TALLY_KEYS = ("container", "names", "flags", "shape", "spec", "n_modes", "n_boot", "bseed")
+TALLY_KEYS = ("mclass", "prov", "container", "names", "flags", "shape", "spec", "n_modes", "n_boot", "bseed")
 TRUSTED = ["model.data['input_data'] as the definition of the model's own preprocessed samples"]
 
 TOL = 1e-7  # member fits run with solver='auto' (randomized on most of these shapes): DESIGN 4.3
@@ -67,12 +73,12 @@ def cases(tier, seed):
     out = []
     seen = set()
 
-    def add(container, names, flags, shape, spec, k, nb, bs):
+    def add(container, names, flags, shape, spec, k, nb, bs, mclass="EOF", prov="fresh"):
         n, p = shape
         kk = min(n, p) if k == "max" else k
         if kk > min(n, p):
             return
-        c = dict(model="EOFBootstrapper", container=container, names=names, flags=flags, shape=list(shape), spec=spec, n_modes=kk, n_boot=nb, bseed=bs)
+        c = dict(model="EOFBootstrapper", mclass=mclass, prov=prov, container=container, names=names, flags=flags, shape=list(shape), spec=spec, n_modes=kk, n_boot=nb, bseed=bs)
         key = json.dumps(c, sort_keys=True)
         if key not in seen:
             seen.add(key)
@@ -97,6 +103,24 @@ def cases(tier, seed):
         for nm in names:
             for bs in (0, 1, 7):
                 add("da", nm, "TFFF", (6, 4), "geometric", 2, 50, bs)
+        # D: provenance - the judged fit is the SECOND fit of one bootstrapper object
+        for prov in ("refit_same", "refit_other"):
+            for cont in ("da", "ds", "list"):
+                for nm in ("default", "sf"):
+                    for shape, spec, k in (((6, 4), "geometric", "max"), ((12, 6), "flat_pair", 1)):
+                        for nb, bs in ((2, 1), (3, 7)):
+                            add(cont, nm, "TFFF", shape, spec, k, nb, bs, prov=prov)
+        # E: complex-valued models
+        for mclass in ("ComplexEOF", "HilbertEOF"):
+            for cont in ("da", "ds", "list"):
+                for nm in ("default", "sf"):
+                    for fl in ("TFFF", "TTTT"):
+                        for shape, spec in (((6, 4), "geometric"), ((12, 6), "flat_pair")):
+                            for k in (1, "max"):
+                                for nb, bs in ((1, 0), (3, 7)):
+                                    add(cont, nm, fl, shape, spec, k, nb, bs, mclass=mclass)
+            add("da", "default", "FFFF", (12, 6), "geometric", 3, 2, 1, mclass=mclass)
+            add("da", "default", "TFFF", (6, 4), "geometric", "max", 2, 1, mclass=mclass, prov="refit_other")
     else:
         for cont in containers:
             for nm in names:
@@ -123,20 +147,40 @@ def cases(tier, seed):
                 for bs in (0, 1, 7):
                     for shape, spec in (((6, 4), "geometric"), ((12, 6), "near_equal_var")):
                         add(cont, nm, "TFFF", shape, spec, 2, 50, bs)
+        for prov in ("refit_same", "refit_other"):
+            for cont in containers:
+                for nm in names:
+                    for shape, spec in (((6, 4), "geometric"), ((4, 6), "rank_def"), ((12, 6), "flat_pair")):
+                        for k in (1, "max"):
+                            for nb in (2, 3):
+                                for bs in (0, 7):
+                                    add(cont, nm, "TFFF", shape, spec, k, nb, bs, prov=prov)
+        for mclass in ("ComplexEOF", "HilbertEOF"):
+            for cont in containers:
+                for nm in ("default", "sf"):
+                    for fl in ("TFFF", "FFFF", "TTTT"):
+                        for shape, spec in (((6, 4), "geometric"), ((4, 6), "geometric"), ((12, 6), "flat_pair"), ((6, 4), "rank_def")):
+                            for k in (1, 2, "max"):
+                                for nb in (1, 3):
+                                    for bs in (0, 7):
+                                        add(cont, nm, fl, shape, spec, k, nb, bs, mclass=mclass)
+            for prov in ("refit_same", "refit_other"):
+                for cont in ("da", "ds", "list"):
+                    add(cont, "default", "TFFF", (6, 4), "geometric", "max", 2, 1, mclass=mclass, prov=prov)
     return out
 
 
 # ----------------------------------------------------------------------------- labelled containers
 
 
-def build(case, seed):
+def build(case, seed, salt=0):
     """Returns obj, dim, weights and the bijection (pieces / sample spec) between cells and the n x p matrix X0."""
     import pandas as pd
     import xarray as xr
 
     n, p = case["shape"]
     cont = case["container"]
-    X0 = D.make_matrix(n, p, case["spec"], 1.0, False, seed)
+    X0 = D.make_matrix(n, p, case["spec"], 1.0, case.get("mclass") == "ComplexEOF", seed, salt=salt)
     fl = case["flags"]
     use_w = fl[3] == "T"
     rng = np.random.default_rng([seed, 2020, p])
@@ -335,10 +379,10 @@ def ref_eof(M, counts):
     c = np.asarray(counts, dtype=float)
     mean = (c[:, None] * M).sum(axis=0) / n
     Y = M - mean[None, :]
-    C = (Y * c[:, None]).T @ Y / (n - 1)
-    w, Q = np.linalg.eigh((C + C.T) / 2)
+    C = (Y * c[:, None]).conj().T @ Y / (n - 1)  # Y = U S V^H  ->  (Y^H Y) V = V S^2
+    w, Q = np.linalg.eigh((C + C.conj().T) / 2)
     w = np.clip(w[::-1], 0, None)
-    return dict(lam=w, V=Q[:, ::-1], mean=mean, tv=float(np.trace(C)))
+    return dict(lam=w, V=Q[:, ::-1], mean=mean, tv=float(np.trace(C).real))
 
 
 _MULTISETS = {}
@@ -362,13 +406,13 @@ def search_resample(M, tv_obs, ev_obs, scale2, cache):
         return None
     A = _multisets(n)
     if "tv" not in cache:
-        r2 = (M**2).sum(axis=1)
+        r2 = (np.abs(M) ** 2).sum(axis=1)
         tv = np.empty(A.shape[0])
         step = 100000
         for a0 in range(0, A.shape[0], step):
             idx = A[a0 : a0 + step].astype(np.intp)
             mean = M[idx].mean(axis=1)
-            tv[a0 : a0 + step] = (r2[idx].sum(axis=1) - n * (mean**2).sum(axis=1)) / (n - 1)
+            tv[a0 : a0 + step] = (r2[idx].sum(axis=1) - n * (np.abs(mean) ** 2).sum(axis=1)) / (n - 1)
         cache["tv"] = tv
     hits = []
     for j in np.nonzero(np.abs(cache["tv"] - tv_obs) <= 1e-6 * scale2)[0][:2000]:
@@ -380,22 +424,42 @@ def search_resample(M, tv_obs, ev_obs, scale2, cache):
 
 
 def _cos(a, b):
+    """real part of the normalised (Hermitian) inner product <a, b> = a^H b"""
     na, nb = np.linalg.norm(a), np.linalg.norm(b)
     if na == 0 or nb == 0:
         return 0.0
-    return float(a @ b / na / nb)
+    return float(np.vdot(a, b).real / na / nb)
+
+
+def _undetermined(a, b):
+    """orientation of a against b is numerically undetermined under every pairing (with or without conjugate)"""
+    na, nb = np.linalg.norm(a), np.linalg.norm(b)
+    if na == 0 or nb == 0:
+        return True
+    return min(abs(np.vdot(a, b)), abs(np.sum(a * b))) / na / nb <= 1e-6
 
 
 # ----------------------------------------------------------------------------- one case
 
 
-def _fit_boot(model, nb, bs):
+def _fit_boot(model, nb, bs, before=None):
     from xeofs.validation import EOFBootstrapper
 
     b = EOFBootstrapper(n_bootstraps=nb, seed=bs)
     with contextlib.redirect_stderr(io.StringIO()):  # tqdm
+        if before is not None:
+            b.fit(before)  # provenance: the judged fit is the second one of this object
         b.fit(model)
     return dict(comps=b.components(), scores=b.scores(), ev=b.explained_variance(), tv=b.data["total_variance"])
+
+
+def _real(x, what):
+    x = np.asarray(x)
+    if np.iscomplexobj(x):
+        if np.abs(x.imag).max() > 1e-12 * max(np.abs(x).max(), 1e-300):
+            raise StructureError("complex_variance", "%s are not real" % what)
+        x = x.real
+    return x
 
 
 def _member_dim(boot_da, model_da, what):
@@ -425,7 +489,9 @@ def run_case(case, seed):
     k, nb, bs = case["n_modes"], case["n_boot"], case["bseed"]
     fl = case["flags"]
     sname, fname = NAMES[case["names"]]
-    feats = dict(container=case["container"], default_names=case["names"] == "default")
+    mclass = case.get("mclass", "EOF")
+    prov = case.get("prov", "fresh")
+    feats = dict(container=case["container"], default_names=case["names"] == "default", fitted=mclass, complex=mclass != "EOF", prov=prov)
     V = []
 
     def bad(check, msg, **extra):
@@ -433,13 +499,25 @@ def run_case(case, seed):
 
     with warnings.catch_warnings():
         warnings.simplefilter("ignore")
-        model = xe.single.EOF(n_modes=k, center=fl[0] == "T", standardize=fl[1] == "T", use_coslat=fl[2] == "T", sample_name=sname, feature_name=fname, solver="full", random_state=3)
+        def new_model():
+            kw = dict(n_modes=k, center=fl[0] == "T", standardize=fl[1] == "T", use_coslat=fl[2] == "T", sample_name=sname, feature_name=fname, solver="full", random_state=3)
+            if mclass == "HilbertEOF":
+                return xe.single.HilbertEOF(padding="none", **kw)
+            return getattr(xe.single, mclass)(**kw)
+
+        model = new_model()
         model.fit(B["obj"], dim=B["dim"], weights=B["weights"])
+        before = None
+        if prov == "refit_same":
+            before = model
+        elif prov == "refit_other":
+            B2 = build(case, seed, salt=1)
+            before = new_model().fit(B2["obj"], dim=B2["dim"], weights=B2["weights"])
         m_comps, m_scores, m_ev = model.components(), model.scores(), model.explained_variance()
         Xin = np.asarray(model.data["input_data"].values)
         try:
-            run1 = _fit_boot(model, nb, bs)
-            run2 = _fit_boot(model, nb, bs)
+            run1 = _fit_boot(model, nb, bs, before)
+            run2 = _fit_boot(model, nb, bs)  # always a fresh object: clause (e) relates the judged fit to it
         except (CaseTimeout, MemoryError):
             raise
         except Exception as e:  # the quantifier covers this model: raising is a violation (signature carries the naming)
@@ -450,6 +528,8 @@ def run_case(case, seed):
 
     # ---------------- independent preprocessed samples, and the place of input_data's rows/columns in them
     M = R.preprocess(X0, fl[0] == "T", fl[1] == "T", B["clvec"], B["wvec"])
+    if mclass == "HilbertEOF":
+        M = R.analytic_centered(M)
     pr, pcol = align_input(Xin, M)
     if pr is None:
         bad("input_data", "model.data['input_data'] is not a row/column permutation of the reference preprocessed samples")
@@ -505,8 +585,8 @@ def run_case(case, seed):
             return dict(
                 Vb=np.moveaxis(comps_matrix(norm_c(run["comps"], True), B, [mdim, "mode"]), 1, 2),  # (nb, p, k)
                 Sb=np.moveaxis(scores_matrix(run["scores"].sel(mode=modes), B, [mdim, "mode"]), 1, 2),  # (nb, n, k)
-                ev=np.asarray(run["ev"].sel(mode=modes).transpose(mdim, "mode").values),
-                tv=np.asarray(run["tv"].values),
+                ev=_real(run["ev"].sel(mode=modes).transpose(mdim, "mode").values, "explained_variance"),
+                tv=_real(run["tv"].values, "total_variance"),
             )
 
         F1, F2 = flat(run1), flat(run2)
@@ -557,10 +637,10 @@ def run_case(case, seed):
         if abs(tv - rf["tv"]) > TOL * scale2:
             bad("total_variance", "member %d: total variance %.9g; resample's %.9g" % (j + 1, tv, rf["tv"]))
         # (b)
-        G = Vb.T @ Vb
+        G = Vb.conj().T @ Vb
         e = np.abs(G - np.eye(k)).max()
         if not e <= TOL:
-            bad("components_orthonormal", "member %d: |V^T V - I| = %.3e" % (j + 1, e))
+            bad("components_orthonormal", "member %d: |V^H V - I| = %.3e" % (j + 1, e))
         if ok_ev:
             sref = np.sqrt(rf["lam"] * (n - 1))
             for cl in D.clusters(sref, GAP):
@@ -570,7 +650,7 @@ def run_case(case, seed):
                 if len(cl) > 1:
                     n_cluster += 1
                 Q = rf["V"][:, cl]
-                res = Vb[:, inside] - Q @ (Q.T @ Vb[:, inside])
+                res = Vb[:, inside] - Q @ (Q.conj().T @ Vb[:, inside])
                 e = np.abs(res).max()
                 if not e <= 10 * TOL:
                     bad("components_subspace", "member %d: modes %s leave the reference eigen-subspace by %.3e" % (j + 1, [i + 1 for i in inside], e))
@@ -590,7 +670,7 @@ def run_case(case, seed):
             if np.linalg.norm(ac) > 1e-6 * s0 and np.linalg.norm(bc) > 1e-6 * s0:
                 meas.append(_cos(ac, bc))
             if min(abs(x) for x in meas) <= 1e-6:
-                continue
+                continue  # (for complex models: real part of the Hermitian inner product, the loosest reading of 'correlates non-negatively')
             n_sign += 1
             if max(meas) < 0:
                 bad("sign_alignment", "member %d mode %d correlates negatively with the model's mode (score cosine, component cosine, Pearson: %s)" % (j + 1, i + 1, ["%.3f" % x for x in meas]), centered=fl[0] == "T")
@@ -604,16 +684,16 @@ def run_case(case, seed):
                     continue  # cluster shared with modes that were not retained: the retained vectors are not determined
                 if len(cl) == 1:
                     i = cl[0]
-                    free = abs(_cos(Sb[:, i], Sm[:, i])) <= 1e-6  # orientation itself undetermined
-                    e = np.abs(Vb[:, i] - Vb2[:, i]).max()
-                    es = np.abs(Sb[:, i] - Sb2[:, i]).max() / max(s0, 1e-300)
-                    if free:
-                        e = min(e, np.abs(Vb[:, i] + Vb2[:, i]).max())
-                        es = min(es, np.abs(Sb[:, i] + Sb2[:, i]).max() / max(s0, 1e-300))
+                    ph = 1.0
+                    if _undetermined(Sb[:, i], Sm[:, i]):  # orientation itself undetermined: compare up to a unit factor
+                        z = np.vdot(Vb2[:, i], Vb[:, i])
+                        ph = z / abs(z) if abs(z) > 0 else 1.0
+                    e = np.abs(Vb[:, i] - ph * Vb2[:, i]).max()
+                    es = np.abs(Sb[:, i] - ph * Sb2[:, i]).max() / max(s0, 1e-300)
                     if not (e <= 100 * TOL and es <= 100 * TOL):
                         bad("reproducible_members", "member %d mode %d: same seed, components differ by %.3e, scores by %.3e" % (j + 1, i + 1, e, es))
                 else:
-                    e = np.abs(Vb[:, cl] @ Vb[:, cl].T - Vb2[:, cl] @ Vb2[:, cl].T).max()
+                    e = np.abs(Vb[:, cl] @ Vb[:, cl].conj().T - Vb2[:, cl] @ Vb2[:, cl].conj().T).max()
                     if not e <= 100 * TOL:
                         bad("reproducible_members", "member %d modes %s: same seed, projectors differ by %.3e" % (j + 1, [i + 1 for i in cl], e))
 
@@ -632,7 +712,7 @@ def run_case(case, seed):
         violations=V2,
         outcome="violation" if V2 else "ok",
         nontrivial=not V2 and F1["Vb"].size > 0 and F1["Sb"].size > 0,
-        info=dict(k=k, n_boot=nb, resample=dig, sign_decided=n_sign, clusters=n_cluster, other_generator=bool(found_other)),
+        info=dict(k=k, n_boot=nb, prov=prov, fitted=mclass, resample=dig, sign_decided=n_sign, clusters=n_cluster, other_generator=bool(found_other)),
     )
 
 
@@ -648,4 +728,6 @@ def vacuity(outcomes, results, tier):
         return "sign alignment was never decidable"
     if sum(r["info"]["clusters"] for r in ok) == 0:
         return "no degenerate cluster was ever compared by subspace"
+    if not any(r["info"].get("prov") != "fresh" for r in ok):
+        return "no second fit of a bootstrapper object was evaluated"
     return None
